@@ -199,6 +199,29 @@ func (sg *schemaGen) record(depth, nfields int) avro.Schema {
 	for i := range fields {
 		fields[i] = avro.SchemaRecordField{Name: "n" + strconv.Itoa(i), Type: sg.any(depth + 1)}
 	}
+	// sometimes the field names are less tidy: names that are also the Go identifiers the
+	// generated targets use for OTHER fields (F0, F1, ...), and names with '-' and '.'
+	if sg.rng.Intn(4) == 0 {
+		used := map[string]bool{}
+		for i := range fields {
+			var n string
+			switch sg.rng.Intn(4) {
+			case 0:
+				n = "F" + strconv.Itoa(sg.rng.Intn(nfields+2))
+			case 1:
+				n = "x-req-" + strconv.Itoa(i)
+			case 2:
+				n = "geo.lat" + strconv.Itoa(i)
+			default:
+				n = fields[i].Name
+			}
+			if used[n] {
+				n = fields[i].Name
+			}
+			used[n] = true
+			fields[i].Name = n
+		}
+	}
 	o := &avro.SchemaObject{Name: name, Fields: fields}
 	if sg.rng.Intn(3) == 0 {
 		o.Namespace = "ns.test"
